@@ -12,9 +12,11 @@ import (
 	"github.com/metal-toolbox/audito-maldito/ingesters/auditlog"
 	"github.com/metal-toolbox/audito-maldito/ingesters/namedpipe"
 	"github.com/metal-toolbox/audito-maldito/internal/common"
+	"github.com/metal-toolbox/audito-maldito/internal/health"
 	"github.com/metal-toolbox/audito-maldito/internal/metrics"
 	"github.com/metal-toolbox/audito-maldito/internal/verif/auditgen"
 	"github.com/metal-toolbox/audito-maldito/internal/verif/mc"
+	"github.com/metal-toolbox/audito-maldito/processors/auditd"
 	"github.com/metal-toolbox/audito-maldito/processors/sshd"
 )
 
@@ -170,8 +172,57 @@ func runC13(t *testing.T, run *mc.Run) int {
 			return ""
 		})
 	}
+	// --- the audit processor behind a backlog: the line buffer (the daemon's holds 10 000 lines) still has thousands
+	// of records of a correlated session when the cancellation comes, the processor being in the middle of writing
+	// an event (held there by the output). Once the write is let go the parser is back at its select with both the
+	// cancellation and more lines ready: how many more lines it takes is a matter of coin flips (each with
+	// probability 1/2), not of the size of the backlog - more than 64 is no accident (2^-64).
+	for _, backlog := range []int{200, 6000} {
+		backlog := backlog
+		cell(fmt.Sprintf("audit-processor/writing-an-event-with-%d-lines-buffered", backlog), true, func() string {
+			r := &rig{audits: make(chan string, 10000), logins: make(chan common.RemoteUserLogin), w: &wrec{}}
+			r.ew = auditevent.NewDefaultAuditEventWriter(r.w)
+			r.ctx, r.cancel = context.WithCancel(context.Background())
+			a := auditd.Auditd{Audits: r.audits, Logins: r.logins, EventW: r.ew, Health: health.NewSingleReadinessHealth(auditd.AuditdProcessorComponentName)}
+			go func() {
+				r.ret = a.Read(r.ctx)
+				r.returned = true
+			}()
+			synctest.Wait()
+			r.offerLogin(mkLogin(bindPID, "1"))
+			r.audits <- bindLines("7") + "\n"
+			r.audits <- auditgen.Simple("USER_START", 1700000031, 4001, "7", "4242", "success").Recs[0].Line + "\n"
+			synctest.Wait()
+			gate := make(chan error)
+			r.w.gate = gate
+			for i := 0; i < backlog; i++ {
+				r.audits <- auditgen.Simple("USER_ACCT", 1700000040+int64(i), 5000+i, "7", "4242", "success").Recs[0].Line + "\n"
+			}
+			synctest.Wait() // the parser is inside the write of an event; the rest waits in the buffer
+			left := len(r.audits)
+			if left < backlog-3 {
+				return fmt.Sprintf("inconclusive set-up: only %d of %d lines left in the buffer while the first write is held", left, backlog)
+			}
+			r.cancel()
+			synctest.Wait()
+			if !r.returned {
+				return "the audit processor is still running after its context was cancelled"
+			}
+			atReturn := len(r.w.writes)
+			select {
+			case gate <- nil:
+			default:
+			}
+			vsleep(10e9)
+			taken, written := left-len(r.audits), len(r.w.writes)-atReturn
+			if taken > 64 || written > 64 {
+				return fmt.Sprintf("after the processor had returned, %d more lines were taken from the buffer and %d events written (the buffer held %d lines)", taken, written, left)
+			}
+			return ""
+		})
+	}
 	cov := mc.Coverage{Level: "fault_enumeration", Evaluations: n, Distinct: blocking, Exhaustive: true, Samples: samples,
-		Rule:  "cancellation injected in each blocking state of each worker that can run in a synctest bubble: AuditLogIngester.Process with downstream capacity {0,1,3} empty/full and the consumer stopped; ProcessSshdLogEntry blocked on the login hand-off; Auditd.Read idle / with an open session / holding events / with a waiting login; after return further input is offered and must be neither consumed nor emitted. 'never returns' = still durably blocked after cancel(); Wait(). distinct_nontrivial = cells in which the worker is blocked when cancellation arrives",
+		Rule:  "cancellation injected in each blocking state of each worker that can run in a synctest bubble: AuditLogIngester.Process with downstream capacity {0,1,3} empty/full and the consumer stopped; ProcessSshdLogEntry blocked on the login hand-off; Auditd.Read idle / with an open session / holding events / with a waiting login / in the middle of an event write with 200 and 6 000 lines waiting in its line buffer (no more than 64 further lines may be taken once it has returned: the parser's select is a coin flip per line, not a drain); after return further input is offered and must be neither consumed nor emitted. 'never returns' = still durably blocked after cancel(); Wait(). distinct_nontrivial = cells in which the worker is blocked when cancellation arrives",
 		Extra: map[string]any{"cells": n}}
 	cov.Assumptions = []string{"testing/synctest durable-blocking semantics"}
 	return run.Finish(cov)
